@@ -41,6 +41,13 @@ import (
 
 type P struct{}
 
+// status bit values come from the tree (hook), never from literals here
+var (
+	stData   = byte(blockchain.VerifC02Consts()["statusDataStored"])
+	stFailed = byte(blockchain.VerifC02Consts()["statusValidateFailed"])
+	stInvAnc = byte(blockchain.VerifC02Consts()["statusInvalidAncestor"])
+)
+
 func (P) ID() string { return "C02" }
 
 func (P) Facts() []core.Fact {
@@ -552,8 +559,8 @@ func errClass(err error) string {
 // other fields of BestSnapshot; for the header view HeaderHashByHeight,
 // HeaderHeightByHash, LatestBlockLocatorByHeader, BestChainHeaderForkHeight; for
 // the orphan pool HaveBlock vs IsKnownOrphan. mainbits = MainChainHasBlock per id;
-// hdrbits = IsValidHeader per id; statuses = raw status byte per id (hex, '-' if
-// not indexed); tips = ChainTips sorted by id; notes = the connected/disconnected
+// hdrbits = IsValidHeader per id; statuses = per id '-' not indexed, 'h' header
+// only, 'd' data stored, + 'i' known invalid; tips = ChainTips sorted by id; notes = the connected/disconnected
 // notifications raised by this op; orphans = per id 'o<GetOrphanRoot>' or '-'.
 func (in *inst) observe(res string, ids []int) string {
 	var sb strings.Builder
@@ -740,11 +747,21 @@ func (in *inst) observe(res string, ids []int) string {
 			orph = append(orph, "-")
 			continue
 		}
+		// at the level of the public API only: not indexed / header only / data
+		// stored, + known invalid (the raw status byte is bookkeeping: when the valid
+		// bit is set, failed vs invalid-ancestor, are not part of the property)
 		st, ok := in.chain.VerifC02NodeStatus(x.block.Hash())
 		if !ok {
 			sb.WriteByte('-')
 		} else {
-			sb.WriteString(strconv.FormatUint(uint64(st), 16))
+			if st&stData != 0 {
+				sb.WriteByte('d')
+			} else {
+				sb.WriteByte('h')
+			}
+			if st&(stFailed|stInvAnc) != 0 {
+				sb.WriteByte('i')
+			}
 		}
 		// the header accessor knows exactly the indexed nodes
 		if hdr, err := in.chain.HeaderByHash(x.block.Hash()); (err == nil) != ok || (err == nil && hdr.BlockHash() != *x.block.Hash()) {
@@ -752,7 +769,7 @@ func (in *inst) observe(res string, ids []int) string {
 		}
 		isOrph := in.chain.IsKnownOrphan(x.block.Hash())
 		have, _ := in.chain.HaveBlock(x.block.Hash())
-		if have != (isOrph || (ok && st&1 != 0)) {
+		if have != (isOrph || (ok && st&stData != 0)) {
 			sb.WriteString("!have")
 		}
 		if isOrph {
